@@ -343,7 +343,7 @@ def testPassConstraint (p : PassT) (c : Ctx) (s0 : Nat) : Except String (Bool ×
 constraint decides whether the pass runs at all – it is tested on the stream as it stands, before the reversal –, then the reversal
 `reverse = seg->currdir() != ((m_dir & 1) ^ pass.reverseDir())`, then the rules; nothing happens on an empty segment.  A pass
 constraint that leaves the machine in a state other than `finished` makes `Silf::runGraphite` give up (`none`). -/
-def runPassDir (p : PassT) (c : Ctx) (fuel : Nat) : Except String (Option Ctx) :=
+def runPassDir (p : PassT) (c : Ctx) (fuel : Nat) (ar : Bool := true) : Except String (Option Ctx) :=
   match c.seg.first with
   | none => .ok (some c)
   | some s0 =>
@@ -352,21 +352,42 @@ def runPassDir (p : PassT) (c : Ctx) (fuel : Nat) : Except String (Option Ctx) :
     | .ok (ok, st) =>
       if st ≠ .finished then .ok none else
       if !ok then .ok (some c) else
-      let reverse := c.seg.currdir != ((c.dir % 2 == 1) != p.reverseDir)
+      -- `ar`: the call of `Silf::runGraphite` this pass belongs to does not contain the bidi step (`lbidi == 0xFF`)
+      let reverse := ar && (c.seg.currdir != ((c.dir % 2 == 1) != p.reverseDir))
       runPass p (if reverse then c.withSeg (c.seg.reverseSlots (isMark c c.seg)) else c) fuel
 
-/-- one call of `Silf::runGraphite(seg, lo, hi)` (no bidi pass): a fresh slot map and machine, `maxSize = slotCount *
-MAX_SEG_GROWTH_FACTOR`; after each pass the segment may not have outgrown that limit -/
-def runRange (passes : Array PassT) (c : Ctx) (lo hi : Nat) (fuel : Nat) : Except String (Option Ctx) :=
-  let limit : Int := c.seg.numGlyphs * 64
-  let c := c.beginRange limit
+/-- the passes `lo … hi-1` of one call of `Silf::runGraphite`, from a context that is already set up; `limit` is the call's
+`maxSize = slotCount * MAX_SEG_GROWTH_FACTOR`: after each pass the segment may not have outgrown it -/
+def runPasses (passes : Array PassT) (limit : Int) (ar : Bool) (c : Ctx) (lo hi : Nat) (fuel : Nat) : Except String (Option Ctx) :=
   (List.range (hi - lo)).foldl (fun (acc : Except String (Option Ctx)) k =>
     match acc with
     | .ok (some c) =>
-      (match runPassDir (passes.getD (lo + k) default) c fuel with
+      (match runPassDir (passes.getD (lo + k) default) c fuel ar with
        | .ok (some c) => if c.seg.numGlyphs > 0 ∧ c.seg.numGlyphs > limit then .ok none else .ok (some c)
        | o => o)
     | o => o) (.ok (some c))
+
+/-- one call of `Silf::runGraphite(seg, lo, hi)` on a font without a bidi pass: a fresh slot map and machine, `maxSize = slotCount *
+MAX_SEG_GROWTH_FACTOR`, every pass turns the stream into the direction it wants -/
+def runRange (passes : Array PassT) (c : Ctx) (lo hi : Nat) (fuel : Nat) : Except String (Option Ctx) :=
+  runPasses passes (c.seg.numGlyphs * 64) true (c.beginRange (c.seg.numGlyphs * 64)) lo hi fuel
+
+/-- the bidi step of `Silf::runGraphite` (what is left of the bidi pass): the stream is turned into the font's direction.  Mirroring
+(`doMirror`, for fonts with a mirror attribute and requests with `gr_nobidi`) is not modelled. -/
+def bidiStep (c : Ctx) : Ctx :=
+  if c.seg.currdir != (c.dir % 2 == 1) then c.withSeg (c.seg.reverseSlots (isMark c c.seg)) else c
+
+/-- one call of `Silf::runGraphite(seg, lo, hi, dobidi)` on a font whose bidi step sits in front of pass `bPass` (`0xFF`: none):
+the step belongs to this call when `lo < bPass ≤ hi`, or when `bPass = lo` and the caller asks for it; a call that contains it runs
+its passes without turning the stream (`lbidi != 0xFF`), the step itself turns it once.  Every pass of the range runs exactly once. -/
+def runPhase (passes : Array PassT) (bPass : Nat) (c : Ctx) (lo hi : Nat) (dobidi : Bool) (fuel : Nat) : Except String (Option Ctx) :=
+  let limit : Int := c.seg.numGlyphs * 64
+  let c := c.beginRange limit
+  if bPass ≠ 0xFF ∧ ((lo < bPass ∧ bPass ≤ hi) ∨ (dobidi = true ∧ lo = bPass)) then
+    match runPasses passes limit false c lo bPass fuel with
+    | .ok (some c1) => runPasses passes limit false (bidiStep c1) bPass hi fuel
+    | o => o
+  else runPasses passes limit true c lo hi fuel
 
 structure Font where
   passes : Array PassT
@@ -376,6 +397,7 @@ structure Font where
   gadv : Array Int                 -- advance widths (hmtx)
   cmap : Nat → Nat
   silfDir : Nat := 0               -- `Silf::m_dir` (the direction byte of the table minus one): 1 = a right-to-left font
+  bPass : Nat := 0xFF              -- `Silf::m_bPass`: the bidi step sits in front of this pass (0xFF: the font has none)
   aBidi : Nat := 3                 -- the glyph attribute holding the bidi class
 
 /-- `Segment::read_text`: one slot per character, appended in order -/
@@ -403,14 +425,14 @@ def reassoc (seg : Seg) (n : Nat) : Option (Seg × List Assoc.CI) :=
 finds the stream in the direction it wants (`runPassDir`).  No bidi pass, no mirroring. -/
 def shape (font : Font) (text : List Nat) (fuel : Nat) (dir : Nat := 0) : Except String (Option (Ctx × List Assoc.CI)) :=
   if text.length = 0 then .ok (some ({ seg := {}, smap := #[], size := 0, context := 0, maxSize := 0, map := 0, is := none }, [])) else
-  match runRange font.passes (initCtx font text dir) 0 font.ipos fuel with
+  match runPhase font.passes font.bPass (initCtx font text dir) 0 font.ipos true fuel with
   | .error w => .error w
   | .ok none => .ok none
   | .ok (some c) =>
     match reassoc c.seg text.length with
     | none => .error "associateChars: char-info access out of range"
     | some (seg', ci) =>
-      match runRange font.passes (c.withSeg seg') font.ipos font.passes.size fuel with
+      match runPhase font.passes font.bPass (c.withSeg seg') font.ipos font.passes.size false fuel with
       | .error w => .error w
       | .ok none => .ok none
       | .ok (some c) => .ok (some (c, ci))
